@@ -22,7 +22,8 @@ TRUSTED = ["Lean 4 kernel; axioms per theorem under coverage.axioms",
            "the asynchrony of the transition callback worker is an explicit event of the model; the harness waits for the worker before it observes the vault",
            "continuity of the chain itself is C02 (append-only, gap-free) and C05 (liveness); C07 adds the hand-over of shares",
            "IdealSig-style oracle: VerifyPartial answers are labels computed by the real verifier"]
-ASSUMPTIONS = ["a share of the previous epoch is valid under the new polynomial only by coincidence (excluded when the new threshold is 1: then every share is the secret itself)"]
+ASSUMPTIONS = ["synchrony of kyber's DKG (every bundle within the phase): measured per epoch by the harness; runs on an overloaded machine that miss it are discarded, not judged",
+               "a share of the previous epoch is valid under the new polynomial only by coincidence (excluded when the new threshold is 1: then every share is the secret itself)"]
 
 PERIOD_SIG = "reshare-terms-not-pinned:period"
 SCHEME_SIG = "reshare-terms-not-pinned:scheme"
@@ -41,7 +42,7 @@ def gen_scripts(ctx, tier):
     seed = ctx["seed"]
     unch = D.SCHEMES[1 + ((seed + 1) % 4)]
     scripts = []
-    phase, kick = 3000, 450
+    phase, kick = 15000, 450
 
     def net(sch, n, tag, ph=phase):
         return D.net_line(sch, n, "default" if rng.chance(1, 2) else f"net{tag}", ph, kick, rng.next() % 10**9)
@@ -94,10 +95,10 @@ def gen_scripts(ctx, tier):
     o = r.shuffle([0, 1, 2])
     late = r.choice(o)
     scripts.append(("R5-round-boundary", [net(unch, 3, "r5"),
-                    D.initial_line(o, 2, o[0], period=1, genesis=-r.range(20, 300)),
-                    D.reshare_line(r.shuffle(o), [], [], 2, r.choice(o), sched="hold=-400"), f"handover node={o[0]}",
-                    D.reshare_line(r.shuffle(o), [], [], 3, r.choice(o), sched="hold=120"), f"handover node={o[1]}",
-                    D.reshare_line(r.shuffle(o), [], [], 2, r.choice(o), sched=f"hold=-400/holdx={late}:150"),
+                    D.initial_line(o, 2, o[0], period=2, genesis=-2 * r.range(10, 150)),
+                    D.reshare_line(r.shuffle(o), [], [], 2, r.choice(o), sched="hold=-900"), f"handover node={o[0]}",
+                    D.reshare_line(r.shuffle(o), [], [], 3, r.choice(o), sched="hold=250"), f"handover node={o[1]}",
+                    D.reshare_line(r.shuffle(o), [], [], 2, r.choice(o), sched=f"hold=-900/holdx={late}:400"),
                     f"handover node={late}", f"handover node={[x for x in o if x != late][0]}"]))
     if tier == "quick":
         return scripts
@@ -108,10 +109,10 @@ def gen_scripts(ctx, tier):
         r = rng.fork(f"U{k}")
         n = r.range(3, 5)
         o = r.shuffle(list(range(n)))
-        lines = [net(r.choice(D.SCHEMES), n, f"u{k}"), D.initial_line(o, n // 2 + 1, o[0], period=1, genesis=-r.range(20, 900))]
+        lines = [net(r.choice(D.SCHEMES), n, f"u{k}"), D.initial_line(o, n // 2 + 1, o[0], period=2, genesis=-2 * r.range(10, 450))]
         for e in range(3):
             lines += [D.reshare_line(r.shuffle(o), [], [], r.choice(D.thresholds(n)), r.choice(o),
-                                     sched=r.choice(["hold=-400", "hold=150", f"hold=-400/holdx={r.choice(o)}:150", "hold=0"])), f"handover node={r.choice(o)}"]
+                                     sched=r.choice(["hold=-900", "hold=250", f"hold=-900/holdx={r.choice(o)}:400", "hold=0"])), f"handover node={r.choice(o)}"]
         scripts.append((f"U-boundaries-{k}", lines))
     return scripts
 
@@ -140,6 +141,9 @@ def explore(ctx, res):
             if r.get("error"):
                 dist["op_errors"][str(r["error"])[:60]] = dist["op_errors"].get(str(r["error"])[:60], 0) + 1
                 continue
+            if r.get("op") in ("initial", "reshare") and not D.synchronous(r):
+                dist["epochs_discarded_unsynchronised"] = dist.get("epochs_discarded_unsynchronised", 0) + 1
+                break
             evals += 1
             bad, mops, mexp, mkind = [], [], [], None
             op = r.get("op")
